@@ -112,3 +112,40 @@ def floatA : AOps Float :=
     analytic := true }
 
 end Cirkit
+
+namespace Cirkit
+
+/-- Truncated power series ("jets") `a₀ + a₁ t + … + a_K t^K` over `Rat`: evaluating a polynomial
+    circuit at `x_v + t` gives, in the coefficient of `t^k`, the k-th partial derivative in `v`
+    divided by `k!` (the exact specification side of C05). -/
+abbrev Jet := Array Rat
+
+namespace Jet
+def coeff (a : Jet) (i : Nat) : Rat := a.getD i 0
+def ofConst (K : Nat) (q : Rat) : Jet := Array.ofFn (n := K + 1) fun i => if i.val = 0 then q else 0
+def add (K : Nat) (a b : Jet) : Jet := Array.ofFn (n := K + 1) fun i => coeff a i.val + coeff b i.val
+def mul (K : Nat) (a b : Jet) : Jet :=
+  Array.ofFn (n := K + 1) fun i =>
+    (List.range (i.val + 1)).foldl (fun acc j => acc + coeff a j * coeff b (i.val - j)) 0
+end Jet
+
+def jetOps (K : Nat) : Ops Jet :=
+  { zero := Jet.ofConst K 0, one := Jet.ofConst K 1, add := Jet.add K, mul := Jet.mul K }
+
+def jetA (K : Nat) : AOps Jet :=
+  { jetOps K with
+    neg := fun a => a.map (fun x => -x)
+    sub := fun a b => Jet.add K a (b.map (fun x => -x))
+    inv := fun _ => none
+    exp := fun _ => none
+    log := fun _ => none
+    sqrt := fun _ => none
+    conj := id
+    absv := fun a => a.map (fun x => if x < 0 then -x else x)
+    ofRat := Jet.ofConst K
+    toNat := fun a => if (a.toList.drop 1).all (· == 0) then ratToNat (Jet.coeff a 0) else none
+    le := fun _ _ => none
+    show_ := fun a => ",".intercalate (a.toList.map showRat)
+    analytic := false }
+
+end Cirkit
